@@ -118,8 +118,10 @@ def classify(diags, lmap):
                 info["label"] = lmap[li].get("label")
                 info["clause_line"] = clause["line_start"]
                 info["clause_text"] = (clause.get("text") or [{}])[0].get("text", "").strip()
-                if lmap[li].get("kind") in ("ensures", "requires"):
+                if lmap[li].get("kind") == "ensures":
                     info["fn"] = lmap[li].get("fn")
+                if lmap[li].get("kind") in ("requires", "stubrequires"):
+                    info["callee"] = lmap[li].get("fn") or lmap[li].get("callee")
         if info["label"] is None:
             # invariants / hint assertions carry `// [LABELS]` markers on their own line
             for sp in spans:
@@ -224,6 +226,7 @@ def run_unit(name, canary=True, rlimit=None):
     res["trusted"] = list(unit.trusted)
     res["rules_log"] = list(unit.rules_log)
     res["raw_files"] = list(unit.raw_files)
+    res["stubs"] = list(unit.stubs)
     # trust scan of the generated text
     scan = {}
     for kw in ("admit()", "assume(", "external_body", "assume_specification", "uninterp"):
